@@ -97,7 +97,9 @@ def equal_size_rule_entries():
                 m, V = corpus.space(cell, fam, 1)
                 u, v = TrialFunction(V), TestFunction(V)
                 f = Coefficient(V)
-                return [f * u * v * dx(degree=qa, scheme=sa) + f * f * u * v * dx(degree=qb, scheme=sb), f * v * dx(degree=qa, scheme=sa) + v * dx(degree=qb, scheme=sb)]
+                da, db = dx(degree=qa, scheme=sa), dx(degree=qb, scheme=sb)
+                # different and IDENTICAL integrands under the two rules (identical ones get equal factor indices)
+                return [f * u * v * da + f * f * u * v * db, f * v * da + v * db, u * v * da + u * v * db, f * v * da + f * v * db]
             out.append(corpus.Entry(f"rules_equal_size_{cell}_{qa}{sa[0]}_{qb}{sb[0]}", b, tags=("c19",)))
     return out
 
